@@ -21,18 +21,21 @@ BUDGET = {"quick": {"shards": 8, "examples": 250}, "thorough": {"shards": 16, "e
 
 VALUES = G.IDENT_T + G.UNQ_T + G.VAR_T + G.BRACKET_T + G.QUOTED_T + [
     '""', '"a\\"b@"', '"\\"@\\""', "x", "1", '"x"', '" lead@"', '"trail@ "', 'a@\\"', '\\"@', '"a@\\\\"', "a\\;b@", '"#[[@"',
-    '":field: @"', '"*@*"', "ON", "[[]]", '"@\\n"']
+    '":field: @"', '"*@*"', "ON", "[[]]", '"@\\n"',
+    "Ns@::", '"My Lib@::"', "a@:", '"::"', "::", "`@`", "*@", "|@|", '"@\\\\"']
 
 
 def strategy(tier):
-    tricky = st.sampled_from(['""', '"a\\"b@"', '"\\"@\\""', "x", '"x"', 'a@\\"', '\\"@', "[[]]", '" lead@"', '"a@\\\\"', '"two@\nlines"', '"cont@\\\nline"'])
+    tricky = st.sampled_from(['""', '"a\\"b@"', '"\\"@\\""', "x", '"x"', 'a@\\"', '\\"@', "[[]]", "Ns@::", '"My Lib@::"', '" lead@"', '"a@\\\\"', '"two@\nlines"', '"cont@\\\nline"'])
     one = st.one_of(st.sampled_from(VALUES), tricky)
     vals = G.weighted((1, st.just([])), (3, st.lists(one, min_size=1, max_size=1)), (2, st.lists(one, min_size=2, max_size=5)))
     docline = G.weighted((4, G.benign_line()), (1, st.just("")),
                          (2, st.sampled_from(["See the :type: field below.", ":type: path", "The :Default value: is generated.",
                                               ":Default value: by hand", ":Help text: mine", "Mentions :Help text: inline."])))
     doc = st.fixed_dictionaries({"lines": st.lists(docline, max_size=4), "form": st.just("leader"), "mpos": st.integers(0, 8)})
-    p = G.Profile(kinds={"set", "option", "func", "block", "generic"}, p_doc_mostly=True, set_values=vals, doc=doc,
+    p = G.Profile(kinds={"set", "option", "func", "block", "generic", "class", "attr", "member", "test", "section"},
+                  weights={"set": 4, "option": 4, "func": 2, "block": 2, "generic": 1, "class": 1, "attr": 1, "member": 1, "test": 1, "section": 1},
+                  p_doc_mostly=True, set_values=vals, doc=doc,
                   option_help=st.sampled_from(['"Help @"', "HELP@", '"help: with colon @"', '"he said \\"@\\""', "${help@}",
                                                '""', "[[bracket help @]]"]),
                   max_items=6 if tier == "quick" else 10, depth=2, dangling=False, groups=False, moddoc=False, dups=True)
